@@ -22,7 +22,7 @@ StuffOK == phase = "stuff" => \A w \in {6, 8, 10, 12} :
      /\ (s # <<>> => Len(u) >= Len(s) /\ SubSeq(u, 1, Len(s)) = s /\ (\A i \in (Len(s) + 1)..Len(u) : u[i] = 1) /\ Len(u) - Len(s) < w)
 
 \* abstract streams for the selection rule
-Lens == {0, 1, 5, 30, 60, 61, 100, 300, 380, 384, 385, 500, 512, 600, 1000, 2000, 4000, 8000, 12000, 16000, 17500, 18000, 19000, 20000}
+Lens == (0..140) \cup {300, 380, 384, 385, 500, 512, 600, 1000, 2000, 4000, 8000, 12000, 16000, 17500, 18000, 19000, 20000}
 SelOK == phase = "sel" => \A n \in Lens : \A x \in 0..3 : \A req \in {0} \cup (-4..-1) \cup (1..32) :
   LET st(w) == (((n + w - 1) \div w) + x) * w
       r == SelectFrom(n, st, a, req)
